@@ -25,6 +25,9 @@ vars == <<cfg, B, seen, best, fin, casts, lazy, l>>
 NoBlock == "none"
 G == "b0"
 E == cfg.E
+\* height of the FINALITY fork (0 when the trace does not say): blocks below it carry no votes, the first round at or
+\* after it starts from quality 0 and never votes COM
+Fin == IF "fin" \in DOMAIN cfg THEN cfg.fin ELSE 0
 CP(n) == (n \div E) * E
 SP(n) == CP(n) + E - 1
 
@@ -35,7 +38,7 @@ SameChain(a, b) == IsAnc(a, b) \/ IsAnc(b, a)
 
 \* ---- definitional tally: walk the epoch of b from b back to its checkpoint -------------------------------
 RECURSIVE EpochBlocks(_)
-EpochBlocks(b) == IF B[b].num = 0 THEN {}
+EpochBlocks(b) == IF B[b].num = 0 \/ B[b].num < Fin THEN {}
                   ELSE IF B[b].num = CP(B[b].num) THEN {b} ELSE {b} \cup EpochBlocks(B[b].parent)
 Voters(b) == {B[x].signer : x \in EpochBlocks(b)}
 ComVoters(b) == {v \in Voters(b) : \A x \in EpochBlocks(b) : B[x].signer = v => B[x].com}
@@ -51,21 +54,21 @@ SumW(b, S) == SumTab(WtOf(b), S)
 Justified(b) == SumW(b, Voters(b)) > ThrOf(b)
 Committed(b) == SumW(b, ComVoters(b)) > ThrOf(b)
 RECURSIVE Quality(_)
-Quality(b) == IF B[b].num = 0 THEN 0
+Quality(b) == IF B[b].num = 0 \/ B[b].num < Fin THEN 0
               ELSE LET cp == CP(B[b].num)
-                       pq == IF cp = 0 THEN 0 ELSE Quality(AncAt(b, cp - 1))
+                       pq == IF cp = CP(Fin) THEN 0 ELSE Quality(AncAt(b, cp - 1))      \* absRound = 0
                    IN pq + (IF Justified(b) THEN 1 ELSE 0)
 EpochQ(h, n) == Quality(AncAt(h, SP(n)))
 
 FindCP(target, f, h) ==
-  LET start == CP(B[f].num)
+  LET start == IF B[f].num = 0 THEN CP(Fin) ELSE CP(B[f].num)
       cands == {k \in 0..(B[h].num \div E) : k*E >= start /\ k*E + E - 1 <= B[h].num /\ EpochQ(h, k*E) >= target}
   IN IF cands = {} THEN NoBlock
      ELSE LET k == CHOOSE k \in cands : \A j \in cands : k <= j
           IN IF EpochQ(h, k*E) = target THEN AncAt(h, k*E) ELSE NoBlock
 
 ShouldVoteWith(f, cs, p) ==
-  IF (B[p].num + 1) \div E = 0 THEN FALSE
+  IF (B[p].num + 1) \div E = Fin \div E \/ B[p].num + 1 < Fin THEN FALSE
   ELSE LET q == Quality(p) IN
     IF q = 0 THEN FALSE
     ELSE LET jc == IF Justified(p) THEN AncAt(p, CP(B[p].num))
@@ -73,16 +76,19 @@ ShouldVoteWith(f, cs, p) ==
          IN /\ jc # NoBlock
             /\ \A c \in cs : (B[c[1]].num >= B[f].num /\ c[2] >= q - 1) => SameChain(c[1], jc)
 
-Better(b, cur) == \/ Quality(b) > Quality(cur)
-                  \/ Quality(b) = Quality(cur) /\ (B[b].score > B[cur].score
-                                                   \/ (B[b].score = B[cur].score /\ B[b].ord < B[cur].ord))
+BetterThan(b, cur) == B[b].score > B[cur].score \/ (B[b].score = B[cur].score /\ B[b].ord < B[cur].ord)
+\* commitBlock: the engine decides only when both the block and the previous best are at or above FINALITY
+Better(b, cur) == IF B[b].num >= Fin /\ B[cur].num >= Fin
+                  THEN \/ Quality(b) > Quality(cur)
+                       \/ Quality(b) = Quality(cur) /\ BetterThan(b, cur)
+                  ELSE BetterThan(b, cur)
 Accepts(f, b) == IsAnc(f, B[b].parent)
-NewFin(f, b) == IF B[b].num = SP(B[b].num) /\ Committed(b) /\ Quality(b) > 1
+NewFin(f, b) == IF B[b].num >= Fin /\ B[b].num = SP(B[b].num) /\ Committed(b) /\ Quality(b) > 1
                 THEN LET c == FindCP(Quality(b) - 1, f, b) IN IF c = NoBlock \/ ~IsAnc(f, c) THEN f ELSE c
                 ELSE f
 \* Engine.Justified() from best h and finalized f
 JustifiedOf(f, h) ==
-  IF B[h].num < E - 1 THEN f
+  IF B[h].num < CP(Fin) + E - 1 THEN f
   ELSE LET concluded == IF B[h].num < SP(B[h].num) THEN CP(B[h].num) - E ELSE CP(B[h].num)
            sid == AncAt(h, SP(concluded))
        IN IF Quality(sid) = 0 THEN f ELSE FindCP(Quality(sid), f, sid)
@@ -155,11 +161,11 @@ Commit == /\ Ev.e = "Commit"
              /\ seen' = [seen EXCEPT ![n] = @ \cup {b}]
              /\ best' = [best EXCEPT ![n] = IF Better(b, @) THEN b ELSE @]
              /\ fin' = [fin EXCEPT ![n] = NewFin(@, b)]
-             /\ casts' = IF Ev.own
+             /\ casts' = IF Ev.own /\ B[b].num >= Fin
                          THEN LET cp == AncAt(b, CP(B[b].num)) IN
                               [casts EXCEPT ![n] = {c \in cs : c[1] # cp} \cup {<<cp, Quality(b)>>}]
                          ELSE casts
-             /\ lazy' = IF Ev.own THEN [lazy EXCEPT ![n] = FALSE] ELSE lazy
+             /\ lazy' = IF Ev.own /\ B[b].num >= Fin THEN [lazy EXCEPT ![n] = FALSE] ELSE lazy
              \* ---- what the implementation reported must be what the rules give
              /\ best'[n] = Ev.best
              /\ fin'[n] = Ev.fin
@@ -189,7 +195,8 @@ Restart == /\ Ev.e = "Restart"
            /\ Ev.best = best[Ev.n] /\ Ev.fin = fin[Ev.n]
            /\ JustifiedOf(fin[Ev.n], best[Ev.n]) = Ev.just
            /\ lazy' = [lazy EXCEPT ![Ev.n] = TRUE]
-           /\ UNCHANGED <<cfg, B, seen, best, fin, casts>>
+           /\ casts' = [casts EXCEPT ![Ev.n] = {}]
+           /\ UNCHANGED <<cfg, B, seen, best, fin>>
 
 Next == /\ l <= Len(Trace) /\ l' = l + 1
         /\ (Reset \/ New \/ Commit \/ Refuse \/ Ignore \/ Restart)
